@@ -111,6 +111,9 @@ reg('Tsi', cfg=lambda r, h: ([P(r, h), P(r, h), P(r, h)], []), default=([25, 13,
 reg('Vwma', cfg=lambda r, h: ([P(r, h)], []), default=([20], []), idle=lambda ns: ns[0] - 1,
     inds=[('Sma', lambda ns: ns, 'c'), ('Vwma', lambda ns: ns, 'cv')],
     rule=lambda v, s, pv: gt(v[1], v[0]), margin=lambda v, s, pv: abs(v[0] - v[1]))
+reg('VwmaG', cfg=lambda r, h: ([P(r, h), P(r, h)], []), default=([20, 20], []), idle=lambda ns: max(ns[0], ns[1]) - 1,
+    inds=[('Sma', lambda ns: [ns[0]], 'c'), ('Vwma', lambda ns: [ns[1]], 'cv')],
+    rule=lambda v, s, pv: gt(v[1], v[0]), margin=lambda v, s, pv: abs(v[0] - v[1]))
 reg('WeightedClose', cfg=lambda r, h: ([P(r, h)], []), default=([20], []), idle=lambda ns: ns[0] - 1,
     inds=[('WeightedClose', lambda ns: [], 'hlc')], sma_of_first=0,
     rule=lambda v, s, pv: B if v[0] > v[1] else S, margin=lambda v, s, pv: abs(v[0] - v[1]))
